@@ -5,20 +5,33 @@ PROP = "C09"
 
 TRUSTED = [
     "Coq 8.16.1 kernel (coqc), vm_compute for case evaluation; no native_compute",
-    "hand-written model props/C09/coq/Model.v of StoreDocuments/storeDocs/sendBulkToStores/shard.Bulk and the"
-    " write-status matrix (tied to /repo by the correspondence run, not verified code)",
-    "Go harness harness/cmd/hC09: scripted fake StoreApiClient replicas, a RunMetrics collector appended to each"
-    " shard's circuit (observes every shard.Bulk, forces the scripted open/closed state), log canonicalisation",
-    "the circuit library (cep21/circuit) itself: only 'open => callback not run, error returned' and 'closed =>"
-    " callback's result returned' are used; when it opens by itself is not modelled (forced by the script)",
-    "replica calls of one shard visit run in parallel in the code and in replica order in the model (they touch"
-    " disjoint state); the shard order of util.IdxShuffle is observed and fed to the model as an oracle",
+    "hand-written models props/C09/coq/Model.v (StoreDocuments/storeDocs/sendBulkToStores/shard.Bulk, write-status matrix),"
+    " ModelIlv.v (one shard visit as an interleaving of per-replica steps check / call start / call return / record with the"
+    " request context expiring between any two steps or inside a call; the run of StoreDocuments on such visits) and"
+    " ModelFlat.v (the flat status array of ragged tiers) — tied to /repo by the correspondence run, not verified code",
+    "Go harness harness/cmd/hC09: scripted fake StoreApiClient replicas (instant ones; gated ones held by a controller that"
+    " lets each call begin / return and cancels the request context at scripted points and records the schedule it really"
+    " produced; each fake keeps its own accept log), a RunMetrics collector appended to each shard's circuit (observes every"
+    " shard.Bulk, forces the scripted open/closed state), log canonicalisation (calls of a visit as a multiset: sorted by replica)",
+    "the circuit library (cep21/circuit) itself: only 'open => callback not run, error returned', 'closed => callback's"
+    " result returned' and 'Execute does not look at the context before running the callback' are used; when it opens by"
+    " itself is not modelled (forced by the script)",
+    "of an interleaving only the steps visible at the replica stub are observed and controlled (a call begins = it looks at"
+    " the context, a call returns); the loop's bit check and the goroutine's record step are not observable from outside —"
+    " the model performs them as late as the observed steps allow, and its theorem says their position does not matter;"
+    " the shard order of util.IdxShuffle is observed and fed to the model as an oracle",
+    "a replica call that begins on a done context returns the context's error without reaching the store, and a call in"
+    " flight when the context expires returns the context's error at once (gRPC client behaviour, reproduced by the gated"
+    " fakes; a stub that ignores the context is scripted separately as OSlowOk)",
 ]
 ASSUME = [
-    "uniform topology per tier (every shard of a tier has the same number of replicas), 1..3 x 1..3, cold tier optional",
+    "every shard of a tier has at most as many replicas as the LAST shard of the tier (true of every uniform tier, the only"
+    " kind stores.NewStoresFromString builds); a wider shard makes shard.Bulk panic (index out of range: replicasCnt is the"
+    " last shard's count) and a last shard without replicas makes the first successful call kill the process — both are"
+    " modelled (ModelFlat.v), proved to be exactly the excluded cases, and the panic is reproduced by the class ragged:*; they"
+    " are outside the property's quantifier (uniform 1..3 x 1..3) and never produce an acknowledgement",
     "BulkMaxTries >= 1 (theorem hypothesis; the harness passes the constant of /repo/consts into every case)",
-    "the caller's request context expires only at shard-visit boundaries (a call hanging until the deadline is a "
-    "timeout call of the visit after which the context is done); liveness is claimed only when it never expires",
+    "liveness (the retries are really used) is claimed only when the request context never expires",
 ]
 RULE = ("exhaustive {ok,err} call scripts for hot 1x1 (x all circuit scripts), hot 1x2, hot 2x1, cold 1x1 + hot 1x1 "
         "(thorough: three more families); random scripts over 1..3 x 1..3 shards x replicas per tier, cold tier in "
@@ -30,7 +43,17 @@ RULE = ("exhaustive {ok,err} call scripts for hot 1x1 (x all circuit scripts), h
         "success, healthy ones, random ones, ones whose context expires; every {ok,err} first bulk followed by a healthy "
         "one for hot 1x2 and cold 1x1 + hot 1x1), each bulk with its own payload so that calls are attributed to bulks; "
         "shard order as shuffled by the real code (seeded). non-trivial = at least one shard visit "
-        "failed or was short-circuited (fail-over or retry happened); distinct by script")
+        "failed or was short-circuited (fail-over or retry happened); distinct by script. "
+        "Interleaving classes (ilv:*, gated replicas on the real client): hot 1x2 and 1x3 with every start order x every "
+        "return order; hot 1x1..1x3 with the request context cancelled while k of r calls are in flight after j of them "
+        "returned (every k, j; accepting, failing and context-ignoring stubs; also in the visit after a failed one); random "
+        "1..3 shards x 1..5 replicas per tier (cold tier in 40%) with a random linearisation per visit and the context "
+        "cancelled inside a random visit / at a visit boundary (= in the back-off) / before the call / never, plus malformed "
+        "plans (steps of absent replicas, returns before starts, repeats); non-trivial there = calls returned out of replica "
+        "order, or the context expired inside a visit, or a call failed. Ragged classes: tiers whose shards have 0..3 "
+        "replicas with the widest last (narrow: must behave as the matrix model), a last shard without replicas and only "
+        "failing calls, and tiers with a shard wider than the last one (the panic predicted by ModelFlat.v, or the matrix "
+        "behaviour if it has been repaired)")
 
 
 def harness_args(tier, seed, outdir):
